@@ -474,7 +474,7 @@ func (z *ZodSlice[T, R]) validateForEngine(
 	}
 
 	if len(errs) > 0 {
-		return nil, issues.CreateArrayValidationIssues(errs)
+		return nil, issues.CreateArrayValidationIssues(errs, ctx)
 	}
 
 	return validated, nil
